@@ -21,6 +21,8 @@ type ChildTpl struct {
 	// EchoAnnotations: when the child is observed, the hook copies the observed
 	// metadata.annotations into its desired child (a common "start from what I was sent" hook style).
 	EchoAnnotations bool `json:"echoAnnotations,omitempty"`
+	// OwnerRefs: owner references the hook itself puts on the desired child.
+	OwnerRefs []map[string]any `json:"ownerRefs,omitempty"`
 }
 
 // HookProgram is a pure, serialisable hook: response = f(request JSON).
@@ -164,6 +166,13 @@ func (p *HookProgram) DesiredAll(sim *vs.Server, parent map[string]any) []map[st
 						l[k] = v
 					}
 					meta["labels"] = l
+				}
+				if len(tpl.OwnerRefs) > 0 {
+					refs := make([]any, 0, len(tpl.OwnerRefs))
+					for _, r := range tpl.OwnerRefs {
+						refs = append(refs, vs.DeepCopyAny(r))
+					}
+					meta["ownerReferences"] = refs
 				}
 				obj["metadata"] = meta
 				for k, v := range tpl.Fields {
